@@ -81,6 +81,10 @@ func putPrefix(w int, l int) ([]byte, bool) {
 		b := make([]byte, 4)
 		binary.LittleEndian.PutUint32(b, uint32(l))
 		return b, true
+	case 8:
+		b := make([]byte, 8)
+		binary.LittleEndian.PutUint64(b, uint64(l))
+		return b, true
 	}
 
 	return nil, false
@@ -294,7 +298,7 @@ func (e *refEncoder) encFields(out *Enc, n *Node, v reflect.Value) string {
 			fn := f.N
 			if f.EmbPtr {
 				if fv.IsNil() {
-					continue // a nil embedded pointer writes nothing (not generated: not round-trippable by design)
+					return "nil embedded struct pointer (its fields are part of the parent and cannot be left out)"
 				}
 				fv = fv.Elem()
 				fn = fn.Elem
